@@ -152,13 +152,24 @@ func (m *c09LendMon) block(dt time.Duration) {
 		vc[id] = cls{u, s, "vault"}
 	}
 	breaker, _ := e.c.App.EsmKeeper.GetKillSwitchData(e.c.Ctx(), e.u.App)
+	preA := m.aux()
+	inactive := 0
+	for _, id := range e.u.Order {
+		if _, act := e.u.Price(id); !act {
+			inactive++
+		}
+	}
 	e.c.NextBlock(dt)
 	m.rec.Count("blocks", 1)
+	if inactive > 0 {
+		m.rec.Count("blocks_with_an_inactive_price", 1)
+	}
 	if e.panicked {
 		return
 	}
 	post := e.snap()
 	postV := m.vaults()
+	m.handOver(pre, post, preA, m.aux(), "sweep", fmt.Sprintf("block at height %d", e.c.Header.Height))
 	nB, nV := len(pre.borrows), len(preV)
 	// ---- borrows
 	ids := make([]uint64, 0, len(pre.borrows))
@@ -190,6 +201,12 @@ func (m *c09LendMon) block(dt time.Duration) {
 				}
 				m.rec.Distinct("C09-borrow-seize", class, b.PairID)
 				m.rec.Count("borrow_seizures_"+class, 1)
+				if inactive > 0 {
+					m.rec.Count("borrow_seizures_by_sweep_while_another_price_inactive", 1)
+				}
+			} else {
+				// a price the position needs was inactive when the sweep ran (judged by C14, counted here)
+				m.rec.Count("borrow_seizures_by_sweep_unclassified", 1)
 			}
 			delete(m.survivedB, id)
 			delete(m.maxLenB, id)
@@ -316,6 +333,11 @@ func c09LendRun(t *testing.T, rec *ev.Rec, run int) {
 	for a := 0; a < 5; a++ {
 		createVault(a, int64(1510+e.rnd.Intn(600)))
 	}
+	// the e-mode pair lends out the pool's second transit asset, which is the scarce one in half of the variants
+	if ep, ok := e.pair(e.u.EModePair); ok {
+		out := e.u.Assets[ep.AssetOut]
+		c.Deliver(c.Accts[5], lendtypes.NewMsgFundModuleAccounts(ep.AssetOutPoolID, out.ID, c.Accts[5].Addr.String(), sdk.NewCoin(out.Denom, sdk.NewInt(1_000_000_000_000))))
+	}
 	startPrice := map[uint64]uint64{}
 	for _, id := range e.u.Order {
 		startPrice[id], _ = e.u.Price(id)
@@ -323,8 +345,19 @@ func c09LendRun(t *testing.T, rec *ev.Rec, run int) {
 	steps := ev.Pick(700, 4000)
 	for i := 0; i < steps && !e.panicked; i++ {
 		switch x := e.rnd.Intn(100); {
-		case x < 62:
+		case x < 50:
+			if e.rnd.Intn(12) == 0 {
+				e.force = "emode"
+			}
 			e.txStep()
+		case x < 57:
+			m.liquidateMsg(2)
+		case x < 61:
+			m.liquidateMsg(1)
+		case x < 62:
+			if !m.bidGen1() {
+				e.txStep()
+			}
 		case x < 70:
 			// close / reopen vaults so that list positions shift
 			vs := c.App.VaultKeeper.GetVaults(c.Ctx())
@@ -390,6 +423,53 @@ func c09LendRun(t *testing.T, rec *ev.Rec, run int) {
 				e.txStep()
 			}
 		}
+	}
+	// price outage: the feed of one volatile asset goes inactive while the other one crashes. Positions that need the
+	// inactive price are not eligible (the monitor does not classify them, so no liveness count runs for them); the
+	// positions that do not need it must still be seized within the bound -- one position the sweep cannot handle
+	// must not starve the ones behind it.
+	if !e.panicked {
+		for id, p := range startPrice {
+			e.u.SetPrice(id, p, true)
+		}
+		m.block(6 * time.Second)
+		for j := 0; j < 12 && !e.panicked; j++ {
+			e.force = []string{"same-pool", "inter-pool", "inter-pool-2"}[j%3]
+			e.txStep()
+		}
+		out, crash := "uosmo", "uatom"
+		if variant%2 == 1 {
+			out, crash = "uatom", "uosmo"
+		}
+		var outID uint64
+		var outPrice uint64
+		for _, id := range e.u.Order {
+			switch e.u.Assets[id].Denom {
+			case out:
+				outID = id
+				outPrice, _ = e.u.Price(id)
+				e.u.SetPrice(id, outPrice, false)
+			case crash:
+				p, _ := e.u.Price(id)
+				e.u.SetPrice(id, p*62/100+1, true)
+			}
+		}
+		e.log(fmt.Sprintf("feed of %s inactive, %s crashes to 62%%", out, crash))
+		ids, _ := c.App.LendKeeper.GetBorrows(c.Ctx())
+		quiet := 2*((len(ids)+batch-1)/batch) + 5
+		if quiet > 100 {
+			quiet = 100
+		}
+		for i := 0; i < quiet && !e.panicked; i++ {
+			m.block(6 * time.Second)
+			if i == quiet/2 { // the list shifts while the outage lasts
+				e.txStep()
+			}
+		}
+		rec.Count("price_outage_probe_blocks", int64(quiet))
+		e.u.SetPrice(outID, outPrice, true)
+		e.log(fmt.Sprintf("feed of %s active again", out))
+		m.block(6 * time.Second)
 	}
 	// liveness probe: a market crash makes many positions unsafe at once; with no further user activity
 	// every one of them must be seized within the bound (the monitor counts survived sweeps)
@@ -457,6 +537,14 @@ func c09LendRun(t *testing.T, rec *ev.Rec, run int) {
 			m.block(6 * time.Second)
 		}
 	}
+	rec.Floor("liquidate_msg_gen2_sent", 20)
+	rec.Floor("liquidate_msg_gen2_on_safe_borrow", 5)
+	rec.Floor("borrow_seizures_by_message_gen2", 5)
+	rec.Floor("liquidate_msg_gen1_sent", 10)
+	rec.Floor("borrow_seizures_by_message_gen1", 3)
+	rec.Floor("borrow_handover_checks", 10)
+	rec.Floor("borrow_handover_coin_checks", 20)
+	rec.Floor("blocks_with_an_inactive_price", 20)
 	if run == 0 {
 		rec.Sample(map[string]interface{}{"universe": "lend+vault", "variant": variant, "batch": batch, "history_tail": e.tail(8)})
 	}
